@@ -9,7 +9,7 @@ Decides from the syntax tree / CFG of batch/batch/semaphore.py and batch/batch/w
                event; release adds the weight back, then loops while the queue is non-empty, wakes the head iff it fits
                (set + popleft + decrement together, atomically) and stops only when the head does not fit
   R4 pairing   the context manager releases exactly the weight it acquired; every use of `cpu_sem` in worker.py is
-               `async with ....cpu_sem(w)` (or the construction / a read of `.value`)
+               `async with <worker>.cpu_sem(w)` (or the construction / a read of `.value`)
 Does not decide: schedules as such; cancellation of a *waiting* acquirer is outside the property's quantifier (reported as INFO).
 """
 from __future__ import annotations
